@@ -20,7 +20,7 @@ def declare(rep):
 
 
 def run_config(ctx, rep, cfg, F):
-    S.run_ops(ctx, rep, cfg, F, ["union", "difference"], RULES, "ann", 8000)
+    S.run_ops(ctx, rep, cfg, F, ["union", "difference"], RULES, "ann", 3500)
 
 
 def finalize(ctx, rep):
